@@ -8,8 +8,14 @@ func (sel *Selection) XFind(path *xpath.Path) (*Selection, error) {
 	if path == nil {
 		return sel, nil
 	}
+	// the path is about the data as it is, not as the request that triggered the evaluation
+	// filters it (a 'where' would otherwise be applied to every list the path goes thru)
+	plain := *sel
+	if sel.Browser != nil {
+		plain.Constraints = sel.Browser.baseConstraints()
+	}
 	// resolvePath follows the remaining segments itself
-	return xpathImpl{}.resolvePath(path, sel)
+	return xpathImpl{}.resolvePath(path, &plain)
 }
 
 func (sel *Selection) XPredicate(p *xpath.Path) (bool, error) {
